@@ -170,6 +170,8 @@ type Opts struct {
 	Fresh  bool                                          // save the genesis consensus state first (else load from DB)
 	Cache  *blockchain.CacheConfig                       // nil: the chain's default (recent state kept in memory)
 	WrapBO func(bo *blockchain.BlockOperations) BlockOps // optional interposer (crash injection, recording)
+	RootDir string                                       // consensus root dir (the WAL lives in <RootDir>/cs.wal/wal)
+	Priv    types.PrivValidator                          // optional wrapper around the validator key
 }
 
 // BuildNode constructs a node the way mainchain/backend.go wires it.
@@ -191,17 +193,26 @@ func BuildNode(w *World, id int, o Opts) (*Node, error) {
 	}
 	store := cstate.NewStore(db)
 	var st cstate.LatestBlockState
-	if fresh {
+	genesisState := func() cstate.LatestBlockState {
 		vs := w.ValSet()
-		st = cstate.LatestBlockState{
+		gs := cstate.LatestBlockState{
 			ChainID: ChainID, InitialHeight: 1, LastBlockHeight: 0, LastBlockID: types.BlockID{},
 			LastBlockTime: g.Timestamp, Validators: vs, NextValidators: vs.CopyIncrementProposerPriority(1),
 			LastHeightValidatorsChanged: 1, ConsensusParams: *configs.DefaultConsensusParams(), LastHeightConsensusParamsChanged: 1,
 		}
-		st.AppHash = bc.CurrentBlock().AppHash()
+		gs.AppHash = bc.Genesis().AppHash()
+		return gs
+	}
+	if fresh {
+		st = genesisState()
 		store.Save(st)
 	} else {
+		// mainchain/backend.go: LoadStateFromDBOrGenesisDoc — an empty store means "start from the genesis state"
 		st = store.Load()
+		if st.IsEmpty() {
+			st = genesisState()
+			store.Save(st)
+		}
 	}
 	stk, err := sharedStaking()
 	if err != nil {
@@ -218,7 +229,11 @@ func BuildNode(w *World, id int, o Opts) (*Node, error) {
 		ops = o.WrapBO(bo)
 	}
 	be := cstate.NewBlockExecutor(store, log.New(), evp, ops)
-	cs := consensus.NewConsensusState(log.New(), configs.TestConsensusConfig(), st, ops, be, evp)
+	ccfg := configs.TestConsensusConfig()
+	if o.RootDir != "" {
+		ccfg.RootDir = o.RootDir
+	}
+	cs := consensus.NewConsensusState(log.New(), ccfg, st, ops, be, evp)
 	nd := &Node{ID: id, CS: cs, BO: bo, BC: bc, EvPool: evp, Store: store, DB: db, TxPool: pool}
 	if id > 0 {
 		nd.Sign = &SignLog{PrivValidator: w.Privs[id-1]}
